@@ -72,6 +72,10 @@ func scaleRecord(out io.Writer, args []string) error {
 				if rng.Intn(3) == 0 { // narrow domain far from the origin
 					b = a * (1 + (rng.Float64()-0.5)*1e-3)
 				}
+				if rng.Intn(8) == 0 { // a very narrow domain very far from the origin: |Min| / width = 2^24 .. 2^38
+					a = math.Copysign(logUniform(rng, 1e6, 1e12), a)
+					b = a + a*math.Ldexp(1+rng.Float64(), -(24+rng.Intn(15)))*[]float64{1, -1}[rng.Intn(2)]
+				}
 				if rng.Intn(12) == 0 {
 					b = a
 				}
@@ -197,7 +201,12 @@ func scaleRecord(out io.Writer, args []string) error {
 			if mn != mx && dmn != dmx && !math.IsNaN(zv) && math.Abs(zv) > 1e-280 && math.Abs(zv) < 1e280 { // not where the image under- or overflows
 				// a map through a very long or very short destination loses precision legitimately; require invertibility
 				// only when the intermediate position is moderate
-				if y := s.Map(x); math.Abs(y) < 50 {
+				// ... and when neither domain is so narrow relative to its distance from the origin that positions in it
+				// cannot be resolved to 1e-7 (a Linear domain at |Min| / width = 2^30 resolves positions to 2^-22 only)
+				resolvable := func(lo, hi float64) bool {
+					return math.Max(math.Abs(lo), math.Abs(hi)) < 1e6*math.Abs(hi-lo)
+				}
+				if y := s.Map(x); math.Abs(y) < 50 && resolvable(mn, mx) && resolvable(dmn, dmx) {
 					e.Invertible = 1
 				}
 			}
